@@ -72,7 +72,28 @@ Record cfg := mkCfg {
   c_vars : list var;
   c_dfa : list Z }.    (* default_fetch_as *)
 
-Definition new_cfg (ms : Z) : cfg := mkCfg (Z.quot ms 10) 0 false false false false 0 false 0 [] [].
+Definition new_cfg_p (p : Z) : cfg := mkCfg p 0 false false false false 0 false 0 [] [].
+(* integer period_in_ms: int(ms / 10) truncates towards zero *)
+Definition new_cfg (ms : Z) : cfg := new_cfg_p (Z.quot ms 10).
+
+(* period_in_ms given as the exact rational a/b (b > 0): an int (b = 1) or a float (its as_integer_ratio).
+   LogConfig.__init__ computes int(period_in_ms / 10): the quotient is ROUNDED to binary64 (nearest, ties to
+   even; normal range), then truncated towards zero.  fperiod follows that: e.g. 29.999999999 -> 2, 30.0 -> 3. *)
+Definition fperiod (a b : Z) : Z :=
+  if (b <=? 0) || (a =? 0) then 0
+  else
+    let A := Z.abs a in
+    let B := 10 * b in
+    let e0 := Z.log2 A - Z.log2 B - 52 in
+    let quo (e : Z) : Z * Z := if 0 <=? e then (A, B * 2 ^ e) else (A * 2 ^ (- e), B) in
+    let e := if (fst (quo e0) / snd (quo e0)) <? 2 ^ 52 then e0 - 1 else e0 in
+    let n := fst (quo e) in
+    let d := snd (quo e) in
+    let m := n / d in
+    let r := n - m * d in
+    let m' := if 2 * r >? d then m + 1 else if 2 * r =? d then (if Z.odd m then m + 1 else m) else m in
+    let t := if 0 <=? e then m' * 2 ^ e else m' / 2 ^ (- e) in
+    if a <? 0 then - t else t.
 
 Definition set_vars (c : cfg) (vs : list var) : cfg :=
   mkCfg (c_period c) (c_id c) (c_cf c) (c_v2 c) (c_added c) (c_started c) (c_pending c) (c_valid c) (c_errno c) vs (c_dfa c).
@@ -458,7 +479,8 @@ Definition on_packet (s : st) (chan : Z) (data : list Z) : step_result :=
 
 (* ------------------------------------------------------------------ histories *)
 Inductive ev :=
-| ENew (ms : Z)                                   (* LogConfig(name, ms): handle = number of configs so far *)
+| ENew (num den : Z)                              (* LogConfig(name, period_in_ms = num/den): handle = number of
+                                                     configs so far; an int period has den = 1 *)
 | EAddVar (h : nat) (name ty : Z)                 (* add_variable(name, type); ty = 0: no fetch_as given *)
 | EAddMem (h : nat) (name fetch stored addr : Z)  (* add_memory *)
 | EAddConfig (h : nat)                            (* Log.add_config *)
@@ -473,8 +495,8 @@ Definition add_outcome_exn (a : add_outcome) : option exn :=
 
 Definition step (s : st) (e : ev) : step_result :=
   match e with
-  | ENew ms =>
-      (mkSt (s_cfgs s ++ [new_cfg ms]) (s_blocks s) (s_counter s) (s_v2 s) (s_toc s) (s_link s), [], None)
+  | ENew num den =>
+      (mkSt (s_cfgs s ++ [new_cfg_p (fperiod num den)]) (s_blocks s) (s_counter s) (s_v2 s) (s_toc s) (s_link s), [], None)
   | EAddVar h n ty =>
       if negb (valid_h s h) then (s, [], None)
       else
